@@ -383,7 +383,7 @@ func c20Acts(calls [][]string, table string, db *gorm.DB) []string {
 }
 
 func c20TieColumn(r *Result, rng *rand.Rand, tier string) {
-	n := 4000
+	n := 8000
 	if tier == "thorough" {
 		n = 120000
 	} else if tier == "search" {
@@ -480,7 +480,7 @@ func c20TieColumn(r *Result, rng *rand.Rand, tier string) {
 // ---- AutoMigrate skeleton -----------------------------------------------------------------------
 
 func c20TieAuto(r *Result, rng *rand.Rand, tier string) {
-	n := 1500
+	n := 2500
 	if tier == "thorough" {
 		n = 40000
 	} else if tier == "search" {
@@ -545,6 +545,7 @@ func c20TieAuto(r *Result, rng *rand.Rand, tier string) {
 		var tableJ interface{}
 		if st.hasTable {
 			var colsJ []interface{}
+			aliasOf := map[string][]string{}
 			for _, dbn := range sch.DBNames {
 				if rng.Intn(5) == 0 {
 					continue // column missing
@@ -553,6 +554,12 @@ func c20TieAuto(r *Result, rng *rand.Rand, tier string) {
 				col := c20FaithfulCol(rng, db, f)
 				if rng.Intn(4) == 0 {
 					c20Perturb(rng, &col, f)
+				}
+				// GetTypeAliases is a function of the (lower-cased) type name: one alias list per type name
+				if a, ok := aliasOf[strings.ToLower(col.Type)]; ok {
+					col.Aliases = a
+				} else {
+					aliasOf[strings.ToLower(col.Type)] = col.Aliases
 				}
 				st.cols = append(st.cols, col)
 				colsJ = append(colsJ, map[string]interface{}{"name": dbn, "info": col})
